@@ -119,7 +119,8 @@ func c15Eval(base, input string) *fw.Finding {
 	if d.nval != 0 {
 		return fw.F("c15:default-records", s, "%s: default parser recorded %d validation errors without the reporting option", how, d.nval)
 	}
-	for name, x := range map[string]c15Res{"fail-on-validation-error": f, "reporting+fail": b} {
+	for i, x := range []c15Res{f, b} {
+		name := []string{"fail-on-validation-error", "reporting+fail"}[i]
 		if x.ok && !d.ok {
 			return fw.F("c15:fail-accepts-more", s, "%s: %s accepts what the default parser rejects", how, name)
 		}
